@@ -197,15 +197,24 @@ pub fn parse_chunks(chunks: &[Vec<u8>]) -> Result<Vec<RecId>, Failure> {
 
 #[cfg(feature = "bg")]
 fn settle(dir: &Path) {
-    crate::c07::wait_bg_idle(&dir.join("active.log"));
+    if !crate::c07::wait_bg_idle(&dir.join("active.log")) {
+        BG_DIED.with(|b| b.set(true));
+    }
 }
 #[cfg(not(feature = "bg"))]
 fn settle(_dir: &Path) {}
 
+thread_local! {
+    /// the background rotation thread panicked inside the library (bg build)
+    static BG_DIED: std::cell::Cell<bool> = std::cell::Cell::new(false);
+}
+
 pub fn check(tmp: &Path, case: &Case, obs: &mut Obs) -> CaseResult {
     let dir = scratch(tmp, "c05");
     clock::set_now(Some((T0, 0)));
+    BG_DIED.with(|b| b.set(false));
     let r = check_in(&dir, case, obs);
+    let r = if BG_DIED.with(|b| b.get()) && r.is_ok() { fail("C05:panic:background-rotation", "the background rotation thread panicked inside the library; the rolled file was never archived") } else if BG_DIED.with(|b| b.get()) { r.map_err(|f| Failure { sig: "C05:panic:background-rotation".into(), msg: format!("the background rotation thread panicked inside the library ({})", f.msg) }) } else { r };
     clock::set_now(None);
     let _ = std::fs::remove_dir_all(&dir);
     r
@@ -277,6 +286,10 @@ fn check_in(dir: &Path, case: &Case, obs: &mut Obs) -> CaseResult {
             }
             Op::Restart => {
                 settle(dir);
+                if BG_DIED.with(|b| b.get()) {
+                    std::mem::forget(app);
+                    return fail("C05:panic:background-rotation", "the background rotation thread panicked inside the library; the rolled file was never archived");
+                }
                 drop(app);
                 app = build()?;
                 restarted_since_rotation = true;
@@ -311,6 +324,11 @@ fn check_in(dir: &Path, case: &Case, obs: &mut Obs) -> CaseResult {
             }
         }
         settle(dir);
+        if BG_DIED.with(|b| b.get()) {
+            // (the next rotation would wait for the dead thread for ever)
+            std::mem::forget(app);
+            return fail("C05:panic:background-rotation", "the background rotation thread panicked inside the library; the rolled file was never archived");
+        }
         obs.sub_evals += 1;
         let (chunks, archives_now) = read_chunks(dir, &case.roller, &active)?;
         let stream = parse_chunks(&chunks)?;
